@@ -47,7 +47,6 @@ def timeout_history(rng, variant, request, interval, latency, n_before, answer=N
 
 class C27(LLCheck):
     pid = "C27"
-    variants_thorough = ["base", "nophy", "desired", "async", "enc"]
 
     def generate(self, ctx):
         rng, mk = ctx.rng, self.mk
